@@ -61,7 +61,9 @@ def _unit_worker(args):
 
 
 def run_corpus(prop, tier, seed, jobs, want=None):
-    units = gen.corpus(tier, seed, want or ("g1", "g2", "g3", "g4"))
+    # the history check of C06 costs ~40 API round trips per code object: the thorough tier samples 150 standard-library files instead of all
+    limit = 150 if (prop == "C06" and tier == "thorough") else "default"
+    units = gen.corpus(tier, seed, want or ("g1", "g2", "g3", "g4"), limit)
     _UNITS[:] = [(uid, code, _recipe(uid, code, rec)) for uid, code, rec in units]
     work = [(prop, k) for k in range(len(_UNITS))]
     evals, fails, sigs, samples = 0, [], set(), []
